@@ -32,7 +32,7 @@ func cmdDump(args []string) {
 		mode = ssa.NaiveForm
 		args = args[1:]
 	}
-	prog, _, _ := loadProgram("/repo/lib", mode, "./...")
+	prog, _, _ := loadProgram(repoLib, mode, "./...")
 	for fn := range ssautil.AllFunctions(prog) {
 		name := fn.String()
 		for _, a := range args {
